@@ -6,7 +6,7 @@ namespace TM.Driver.C03
 open TM TM.World
 
 def nChains : Nat := 3          -- real chains 0,1,2; chain 3 is a name without client
-def nAcct : Nat := 8
+def nAcct : Nat := 10         -- 0 user, 1 endpoint, 2 packet, 3 agent, 4 execute, 5 relayer, 6 7 receivers, 8 9 further senders
 def userNative : Nat := 100000000000000
 
 structure St where
@@ -15,7 +15,7 @@ structure St where
   fixed : Bool
 
 def freshCfg (i : Nat) : Cfg :=
-  { clients := fun j => decide (j < nChains ∧ j ≠ i), trace := fun _ _ => none, ori := fun _ _ => none }
+  { clients := fun j => decide (j < nChains ∧ j ≠ i), trace := fun _ _ => none, ori := fun _ _ => none, scale := fun _ _ => 0 }
 
 def freshChain : Chain :=
   { Chain.empty with evm := { Evm.empty with bal := fun t a => if t = 0 ∧ a = 0 then userNative else 0 } }
@@ -36,6 +36,8 @@ def dump (st : St) (i : Nat) : String :=
   let seqsFrom (s : Nat) : List Nat := (List.range ((st.w.chains s).nextSeq i + 1)).filter (· ≠ 0)
   let bals := toks.flatMap fun t => accts.filterMap fun a =>
     if e.bal t a = 0 then none else some (kv ("b:" ++ toString t ++ "." ++ toString a) (e.bal t a))
+  let alws := toks.flatMap fun t => [3, 8, 9].filterMap fun a =>
+    if t = 0 ∨ e.allow t a = 0 then none else some (kv ("l:" ++ toString t ++ "." ++ toString a) (e.allow t a))
   let sups := toks.filterMap fun t => if t = 0 ∨ e.supply t = 0 then none else some (kv ("s:" ++ toString t) (e.supply t))
   let outs := toks.flatMap fun t => dsts.filterMap fun d =>
     if e.out t d = 0 then none else some (kv ("o:" ++ toString t ++ "." ++ toString d) (e.out t d))
@@ -55,7 +57,7 @@ def dump (st : St) (i : Nat) : String :=
     match c.acks s q with
     | some code => some (kv ("a:" ++ toString s ++ "." ++ toString q) code)
     | none => none
-  let all := bals ++ sups ++ outs ++ binds ++ seqs ++ stats ++ fees ++ coms ++ recs ++ acks
+  let all := bals ++ alws ++ sups ++ outs ++ binds ++ seqs ++ stats ++ fees ++ coms ++ recs ++ acks
   if all.isEmpty then "-" else joinWith "," all
 
 def parseCall (s : String) : Option Call :=
@@ -78,13 +80,18 @@ def step (st : St) (line : String) : St × String :=
   | ["mode", m] => ({ st with fixed := m != "unrepaired" }, "ok")
   | ["deploy", c, t] =>
     match nats [c, t] with
-    | some [c, t] => ({ st with ntok := upd1 st.ntok c (max (st.ntok c) (t + 1)) }, "ok")
+    | some [c, t] =>
+      -- the harness lets the main user approve the endpoint once for 2^200
+      let st := { st with ntok := upd1 st.ntok c (max (st.ntok c) (t + 1)),
+                          w := World.step st.fixed st.w (.approve c t 0 (2 ^ 200)) }
+      (st, "ok")
     | _ => (st, "bad-op")
-  | ["bind", c, v, oc, ot] =>
-    match nats [c, v, oc, ot] with
-    | some [c, v, oc, ot] =>
+  | ["bind", c, v, oc, ot, sc] =>
+    match nats [c, v, oc, ot, sc] with
+    | some [c, v, oc, ot, sc] =>
       let cfg := st.w.cfg c
-      let cfg' : Cfg := { cfg with trace := upd2 cfg.trace oc ot (some v), ori := upd2 cfg.ori v oc (some ot) }
+      let cfg' : Cfg := { cfg with trace := upd2 cfg.trace oc ot (some v), ori := upd2 cfg.ori v oc (some ot),
+                                   scale := upd2 cfg.scale v oc sc }
       ({ st with w := { st.w with cfg := upd1 st.w.cfg c cfg' } }, "ok")
     | _ => (st, "bad-op")
   | ["mint", c, t, a, n] =>
@@ -93,14 +100,27 @@ def step (st : St) (line : String) : St × String :=
       let st := { st with w := World.step st.fixed st.w (.mint c t a n) }
       (st, "ok " ++ dump st c)
     | _ => (st, "bad-op")
-  | ["send", c, d, t, amt, rcv, ft, fa, call] =>
-    match nats [c, d, t, amt, rcv, ft, fa], parseCall call with
-    | some [c, d, t, amt, rcv, ft, fa], some call =>
+  | ["approve", c, t, a, n] =>
+    match nats [c, t, a, n] with
+    | some [c, t, a, n] =>
+      let st := { st with w := World.step st.fixed st.w (.approve c t a n) }
+      (st, "ok " ++ dump st c)
+    | _ => (st, "bad-op")
+  | ["transfer", c, t, a, b, n] =>
+    match nats [c, t, a, b, n] with
+    | some [c, t, a, b, n] =>
+      let ok := (debit (st.w.chains c).evm t a n).isSome && a != acEndpoint && a != acPacket
+      let st := { st with w := World.step st.fixed st.w (.transfer c t a b n) }
+      (st, (if ok then "ok " else "err ") ++ dump st c)
+    | _ => (st, "bad-op")
+  | ["send", c, snd, d, t, amt, rcv, ft, fa, call] =>
+    match nats [c, snd, d, t, amt, rcv, ft, fa], parseCall call with
+    | some [c, snd, d, t, amt, rcv, ft, fa], some call =>
       let a : SendArgs := { dst := d, token := t, amount := amt, receiver := rcv, call := call, feeToken := ft, feeAmount := fa, callback := false }
-      match World.send (st.w.cfg c) c (st.w.chains c) 0 a with
+      match World.send (st.w.cfg c) c (st.w.chains c) snd a with
       | none => (st, "err " ++ dump st c)
       | some _ =>
-        let st := { st with w := World.step st.fixed st.w (.send c 0 a) }
+        let st := { st with w := World.step st.fixed st.w (.send c snd a) }
         (st, "ok " ++ dump st c)
     | _, _ => (st, "bad-op")
   | "recv" :: s :: d :: q :: rest =>
